@@ -89,6 +89,50 @@ func runC07(c *eng.Ctx) {
 		c.CheckFieldLocks(eng.LockRule{Field: wit, Lock: "mu"}, "failoverStatus.witnesses")
 		c.CheckFieldLocks(eng.LockRule{Field: p.Field("server", "failoverStatus", "timer"), Lock: "mu"}, "failoverStatus.timer")
 	}
+	if fn := c.Fn("server.(*failoverStatus).report"); fn != nil {
+		// the witness is recorded, and it is the reporter's id
+		ok := false
+		eng.Instrs(fn, func(in ssa.Instruction) {
+			if mu, isMU := in.(*ssa.MapUpdate); isMU && eng.LoadNamed("witnesses", nil)(mu.Map) && eng.Param("witness")(mu.Key) {
+				ok = true
+			}
+		})
+		c.Check(ok, "report records the witness", p.Pos(fn.Pos()), "f.witnesses[witness] = struct{}{}", "report does not record the reporting replica as a witness")
+	}
+	for _, k := range []struct{ fn, field string }{{"server.(*metadataAPI).newPartitionFailoverExpiredHandler$1", "partitionFailovers"}, {"server.(*metadataAPI).newGroupFailoverExpiredHandler$1", "groupFailovers"}} {
+		fn := c.Fn(k.fn)
+		if fn == nil {
+			continue
+		}
+		ok := false
+		eng.Instrs(fn, func(in ssa.Instruction) {
+			if call, isC := in.(*ssa.Call); isC {
+				if b, isB := call.Call.Value.(*ssa.Builtin); isB && b.Name() == "delete" && eng.LoadNamed(k.field, nil)(call.Call.Args[0]) {
+					ok = true
+				}
+			}
+		})
+		c.Check(ok, "expiry forgets the witnesses in "+k.field, p.Pos(fn.Pos()), "the expired failover entry is deleted", "the expiry handler keeps the failover entry: witnesses from outside the timeout window still count towards the quorum")
+	}
+	for _, k := range []struct{ fn, field string }{{"server.(*metadataAPI).ReportLeader", "partitionFailovers"}, {"server.(*metadataAPI).ReportGroupCoordinator", "groupFailovers"}} {
+		fn := c.Fn(k.fn)
+		if fn == nil {
+			continue
+		}
+		// a new status is created only when none exists, and it is stored
+		none := eng.CmpEdges(fn, func(v ssa.Value) bool {
+			lk, ok := v.(*ssa.Lookup)
+			return ok && eng.LoadNamed(k.field, nil)(lk.X)
+		}, eng.NilConst, eng.EQ)
+		stored := false
+		eng.Instrs(fn, func(in ssa.Instruction) {
+			if mu, isMU := in.(*ssa.MapUpdate); isMU && eng.LoadNamed(k.field, nil)(mu.Map) {
+				g, _ := eng.GuardedBy(fn, mu, none)
+				stored = g && len(none) > 0
+			}
+		})
+		c.Check(stored, "witnesses accumulate in one status per resource in "+fn.Name(), p.Pos(fn.Pos()), "a failover status is created only when none exists, and stored", "each report works on a fresh failover status (or replaces the existing one): witnesses never accumulate / accumulated witnesses are discarded")
+	}
 	if fn := c.Fn("server.(*partitionFailover).Quorum"); fn != nil {
 		ok := false
 		for _, r := range eng.Returns(fn) {
@@ -96,7 +140,7 @@ func runC07(c *eng.Ctx) {
 		}
 		c.Check(ok, "partition quorum", p.Pos(fn.Pos()), "(ISRSize() - 1) / 2", "partitionFailover.Quorum is not (ISR size - 1) / 2")
 	}
-	c.Floor(8)
+	c.Floor(13)
 
 	// ---- R07.3 witness eligibility
 	c.Rule("R07.3", "K1")
@@ -176,7 +220,8 @@ func runC07(c *eng.Ctx) {
 		g, w := eng.GuardedBy(fn, call, guard)
 		c.Check(g && len(guard) > 0, "SetEpoch in "+s.Outer(), c.Pos(call), "reached only when GetEpoch() < epoch", "SetEpoch is reached without the idempotency guard GetEpoch() >= epoch ⇒ return (path "+w.String()+")")
 	}
-	c.Floor(5)
+	ruleEpochStamping(c)
+	c.Floor(12)
 
 	// ---- R07.6 ISR ⊆ replicas
 	c.Rule("R07.6", "K1")
@@ -345,5 +390,50 @@ func ruleCandidate(c *eng.Ctx) {
 			ok = ia != nil && eng.Param("replicas")(ia.X)
 		}
 		c.Check(ok, "selection returns an element of its argument", p.Pos(fn.Pos()), "returns replicas[i]", "selectPartitionLeader does not return an element of the candidate list")
+	}
+}
+
+// ruleEpochStamping (R07.5 / R06.5): every mutating path stamps the partition epoch; CREATE_STREAM stamps both epochs.
+func ruleEpochStamping(c *eng.Ctx) {
+	p := c.P
+	// every mutating path stamps the partition epoch, and CREATE_STREAM stamps both epochs with the Raft index
+	for _, m := range []struct{ fn, mut string }{
+		{"server.(*metadataAPI).RemoveFromISR", "server.partition.RemoveFromISR"},
+		{"server.(*metadataAPI).AddToISR", "server.partition.AddToISR"},
+		{"server.(*metadataAPI).ChangeLeader", "server.partition.SetLeader"},
+	} {
+		fn := c.Fn(m.fn)
+		if fn == nil {
+			continue
+		}
+		muts := eng.CallsIn(fn, m.mut)
+		if len(muts) != 1 {
+			c.Unresolved(m.mut + " call in " + m.fn)
+			continue
+		}
+		mv := muts[0].(ssa.Value)
+		okEdge := eng.CmpEdges(fn, eng.Same(mv), eng.NilConst, eng.EQ)
+		q := &eng.PathQuery{Fn: fn, FromEdges: okEdge, Target: isReturn, CutInstr: eng.IsCallTo("server.partition.SetEpoch")}
+		w := q.Find()
+		c.Check(w == nil && len(okEdge) > 0, fn.Name()+" stamps the epoch after mutating", c.Pos(muts[0].(ssa.Instruction)), "every path from a successful mutation to the return passes SetEpoch(epoch)", "the partition is mutated without its epoch being advanced (path "+w.String()+"): the idempotency guard does not recognise a replay of this operation, and the change is applied twice")
+		for _, se := range eng.CallsIn(fn, "server.partition.SetEpoch") {
+			c.Check(eng.Param("epoch")(se.Common().Args[1]), fn.Name()+" stamps the operation's epoch", c.Pos(se.(ssa.Instruction)), "SetEpoch(epoch)", "SetEpoch is not given the operation's epoch")
+		}
+	}
+	if fn := c.Fn("server.(*Server).apply"); fn != nil {
+		cs := eng.CallsIn(fn, "server.Server.applyCreateStream")
+		n := 0
+		for _, f := range []string{"LeaderEpoch", "Epoch"} {
+			fo := p.Field("server/protocol", "Partition", f)
+			for _, st := range eng.FieldStores(fn, func(fa *ssa.FieldAddr) bool { return fieldIs(fa, fo) }) {
+				if eng.Param("index")(st.Val) && len(cs) == 1 {
+					q := &eng.PathQuery{Fn: fn, FromAfter: []ssa.Instruction{cs[0].(ssa.Instruction)}, Target: func(x ssa.Instruction) bool { return x == st }}
+					if q.Find() == nil {
+						n++
+					}
+				}
+			}
+		}
+		c.Check(n == 2, "CREATE_STREAM stamps leader and partition epoch with the Raft index", p.Pos(fn.Pos()), "partition.LeaderEpoch = index; partition.Epoch = index before applyCreateStream", "a created stream's partitions do not start at (leader epoch, epoch) = Raft index: later operations with smaller indices are not fenced")
 	}
 }
